@@ -8,6 +8,10 @@ Opts == { [sel |-> s, once |-> o, budget |-> b] : s \in Sels, o \in BOOLEAN, b \
 GSels == { S("all", 0, <<>>), S("depth", 2, <<>>), S("path", 0, <<1>>), S("path", 0, <<2, 1>>) }
 GOpts == { [sel |-> s, once |-> o, budget |-> -1, miss |-> m, strict |-> st] :
               s \in GSels, o \in BOOLEAN, m \in { {}, {"n3"}, {"n2", "n4"} }, st \in BOOLEAN }
+(* two (root, selector) pairs -- root module only *)
+DOpts == { [sel |-> s, once |-> o, budget |-> b, dags |-> 2] : s \in {S("all", 0, <<>>), S("depth", 2, <<>>)}, o \in BOOLEAN, b \in {-1, 2} }
+(* one block under two codecs *)
+AOpts == { [sel |-> s, once |-> o, budget |-> -1] : s \in {S("all", 0, <<>>), S("depth", 2, <<>>), S("path", 0, <<1>>)}, o \in BOOLEAN }
 Nodes4 == <<"n1", "n2", "n3", "n4">>
 Nodes3 == <<"n1", "n2", "n3">>
 =============================================================================
